@@ -1,5 +1,6 @@
 import Ndt.Model.Select
 import Ndt.Proofs.Select
+import Ndt.Proofs.SelectNan
 /-!
 # C08 — Array inputs are handled elementwise and keep their shape
 
